@@ -143,6 +143,14 @@ fn main() {
             println!("power {prop} {tier}: rows below 90%: {weak}; table {path}; wall={:.1}s", t0.elapsed().as_secs_f64());
             std::process::exit(if weak == 0 { 0 } else { 2 });
         }
+        "c14-probe" => {
+            // verif c14-probe '<cell json>' <seed> <k> : see purity::fresh_process_step
+            let cell: families::Cell = serde_json::from_str(&args[2]).expect("cell json");
+            let seed: u64 = args[3].parse().expect("seed");
+            let k: usize = args[4].parse().expect("k");
+            report::quiet_panics();
+            println!("{}", vcore::purity::probe_line(&cell, seed, k));
+        }
         "probe" => {
             // development aid: words consumed with a forced word, over seeds
             let cell: families::Cell = serde_json::from_str(&args[2]).expect("cell json");
